@@ -6,7 +6,7 @@ from props._fa_common import TRUSTED, ASSUMPTIONS, TECHNIQUE
 
 PROP = "C16"
 LEVEL = "proof"
-THEOREMS = {"Properties.C16": ["C16_translate", "C16_union", "C16_concatenate", "C16_kleene_star", "C16_to_fst"]}
+THEOREMS = {"Properties.C16": ["C16_translate", "C16_union", "C16_concatenate", "C16_kleene_star", "C16_to_fst", "C16_translate_total"]}
 LEVEL_TEXT = ("Proof + correspondence: the model of translate (exploration of (remaining input, output, state), mirrored up to set-iteration order) is "
               "proved to return exactly the outputs related to the input word, for all transducers and words whenever the exploration terminates (it does "
               "when epsilon cycles write nothing). The mirrored union / concatenate / kleene_star (tagged copies, bridge epsilon moves, fresh start=final "
